@@ -225,6 +225,77 @@ async def byte_case(ctx, version: str | None, chunks: list[bytes], eof: bool, vi
                           case)
 
 
+async def tcp_gateway_case(ctx, version: str, lines: list[str], sends: list[tuple[int, list]]) -> None:
+    """A real Gateway on a real TCPTransport (loopback): reactions are really encoded and written to the peer,
+    so failures of the WRITE side of the receive path (reply echoing wire-supplied text) surface here."""
+    from aiomysensors.gateway import Gateway
+    from aiomysensors.model.message import Message
+    from aiomysensors.transport.tcp import TCPTransport
+
+    case = {"kind": "tcp-gateway", "version": version, "lines": lines, "sends": [[i, f] for i, f in sends]}
+    go = asyncio.Event()
+
+    async def handler(reader, writer) -> None:
+        try:
+            for line in lines:
+                writer.write(line.encode("utf-8"))
+                await writer.drain()
+                go.clear()
+                try:
+                    await asyncio.wait_for(go.wait(), 5)
+                except asyncio.TimeoutError:
+                    break
+            writer.write_eof()
+            await reader.read()
+        except OSError:
+            pass
+        finally:
+            writer.close()
+
+    server = await asyncio.start_server(handler, "127.0.0.1", 0)
+    transport = TCPTransport("127.0.0.1", server.sockets[0].getsockname()[1])
+    gateway = Gateway(transport)
+    gateway.protocol_version = version
+    errors = 0
+    try:
+        await transport.connect()
+        for index, _line in enumerate(lines):
+            for at, fields in sends:
+                if at == index:
+                    try:
+                        await gateway.send(Message(*fields))
+                    except Exception as exc:  # noqa: BLE001
+                        if not is_library_error(exc):
+                            ctx.violation("send-foreign-exception-" + type(exc).__name__,
+                                          f"send({fields}) over TCP raised {type(exc).__name__}: {exc!s:.80}", case)
+            iterator = gateway.listen()
+            try:
+                await asyncio.wait_for(iterator.__anext__(), 5)
+            except asyncio.TimeoutError:
+                ctx.obs("tcp-gateway-timeout")
+                break
+            except Exception as exc:  # noqa: BLE001
+                errors += 1
+                if not is_library_error(exc):
+                    info = exc_info(exc)
+                    ctx.violation("foreign-exception-" + info["class"],
+                                  f"listen() over a real TCP transport raised {info['class']}({exc!s:.80}) in "
+                                  f"{info.get('raised_in')} while handling {lines[index]!r:.60}", case)
+                    break
+            finally:
+                await iterator.aclose()
+                go.set()
+            ctx.clause("tcp-gateway-step")
+    finally:
+        try:
+            await transport.disconnect()
+        except Exception:  # noqa: BLE001
+            pass
+        server.close()
+        await server.wait_closed()
+    ctx.case(("tcp-gateway", version, tuple(lines), repr(sends)), nontrivial=True, sample=case)
+
+
 def random_bytes(rng, n: int) -> bytes:
     roll = rng.random()
     if roll < 0.3:
@@ -313,6 +384,8 @@ def run_case(ctx, case: dict) -> None:
     if kind == "bytes":
         arun(byte_case(ctx, case["version"], [bytes.fromhex(c) for c in case["chunks"]], case["eof"],
                        case.get("via_tcp", False)))
+    elif kind == "tcp-gateway":
+        arun(tcp_gateway_case(ctx, case["version"], case["lines"], [(i, f) for i, f in case["sends"]]))
     elif kind == "mqtt":
         arun(mqtt_case(ctx, case["version"], [tuple(i) for i in case["items"]]))
     else:
@@ -325,6 +398,16 @@ def run(ctx) -> None:
         run_history_cases(ctx, single_step_cases(ctx))
         run_history_cases(ctx, random_cases(ctx))
         concurrent_cases(ctx)
+        texts = ["Grüße 21.5°C", "日本語", "😀", "a;b", " x ", "plain", "\x00", "ß" * 300]
+        for i in range(ctx.pick(40, 800) // ctx.shard_count + 1):
+            version = VERSIONS[i % 5]
+            wake = 32 if version == "2.2" else 22
+            text = texts[i % len(texts)]
+            lines = [f"1;255;0;0;17;{text}\n", f"1;0;0;0;6;{text}\n", f"1;0;1;0;47;{text}\n", "1;0;2;0;47;\n",
+                     "1;255;3;0;6;\n", "1;255;3;0;1;\n", f"1;255;3;0;11;{text}\n", "255;255;3;0;3;\n", f"9;0;1;0;0;{text}\n",
+                     f"1;255;3;0;{wake};1\n", f"1;255;3;0;{wake};2\n", "1;0;2;0;48;\n"]
+            sends = [(10, [1, 0, 1, 0, 48, text]), (4, [1, 0, 1, 1, 2, text])]
+            arun(tcp_gateway_case(ctx, version, lines, sends))
         fixed = [[b"\xff\xfe\n"], [b"1;255;3;0;0;\xff\n"], [b"\xc3\x28\n", b"ok\n"], [b"x" * 70000 + b"\n"],
                  [b"1;2;1;0;0;5"], [b"\n\n\n"], [b"\r\n"], [b"1;255;0;0;17;2.0\n", b"\xf0\x9f\n"]]
         for i, chunks in enumerate(fixed):
@@ -346,5 +429,5 @@ def run(ctx) -> None:
             arun(mqtt_case(ctx, [None, *VERSIONS][i % 6], items))
     reach.into(ctx)
     for clause in ("listen-exception-class", "probe-after-step", "byte-level-exception-class",
-                   "mqtt-level-exception-class", "listen-exception-class-concurrent"):
+                   "mqtt-level-exception-class", "listen-exception-class-concurrent", "tcp-gateway-step"):
         ctx.require(clause, 20)
